@@ -5,7 +5,7 @@
 
 use serde_json::{Value, json};
 use vcore::gast::Prog;
-use vcore::gen01::{Node, control_program, control_program_in_sub, describe, forests};
+use vcore::gen01::{Node, control_program, control_program_in_sub, control_program_shared, describe, forests};
 use vcore::gprint::print_default;
 use vcore::judge::{Verdict, compare};
 use vcore::refsem::run_reference;
@@ -99,12 +99,13 @@ pub fn worker(case: &Value) -> Value {
             let hi = case["hi"].as_u64().unwrap() as usize;
             let last = case["last"].as_bool().unwrap_or(false);
             let in_sub = case["sub"].as_bool().unwrap_or(false);
+            let shared = case["shared"].as_bool().unwrap_or(false);
             let one_line = case["one_line"].as_bool().unwrap_or(false);
             let with_let = case["let"].as_bool().unwrap_or(false);
             let layout = vcore::gprint::Layout { one_line_blocks: one_line, let_and_call: with_let, ..Default::default() };
             let all = forests(nodes);
             for f in all.iter().skip(lo).take(hi - lo) {
-                let prog = if in_sub { control_program_in_sub(f, last) } else { control_program(f, last) };
+                let prog = if shared { control_program_shared(f, last) } else if in_sub { control_program_in_sub(f, last) } else { control_program(f, last) };
                 if one_line && !prog.main.iter().chain(prog.subs.iter().flat_map(|s| s.body.iter())).any(|s| vcore::gprint::inlineable(s) && matches!(s.k, vcore::gast::K::For { .. } | vcore::gast::K::While(..) | vcore::gast::K::Do(..) | vcore::gast::K::Select { .. })) {
                     *hist.entry("not-generated:no construct can be written on one line".into()).or_insert(0) += 1;
                     continue;
@@ -340,6 +341,15 @@ pub fn drive(tier: &str) -> i32 {
                 lo += chunk;
             }
             plan.push(json!({"axis": "A", "nodes": nodes, "children_in_last_body": last, "inside_sub": in_sub, "programs": total}));
+        }
+        // the forest inside a SUB whose counters, limits, steps and tick are DIM SHARED variables of the module
+        if nodes <= if quick { 2 } else { 3 } {
+            let mut lo = 0;
+            while lo < total {
+                cases.push(json!({"axis": "A", "nodes": nodes, "lo": lo, "hi": (lo + 60).min(total), "last": false, "sub": true, "shared": true}));
+                lo += 60;
+            }
+            plan.push(json!({"axis": "A", "nodes": nodes, "inside_sub": true, "variables": "DIM SHARED, read through a FUNCTION in every loop body and printed by the module afterwards", "programs": total}));
         }
     }
     // axis A again with LET before every assignment and CALL before every SUB call
